@@ -52,8 +52,20 @@ def run(kind, p, seq, enc=default_enc, X=None, resets=(), bads=()):
     """resets: positions before which the user calls reset(); bads: positions before which a malformed call
     (labels with several observations) is made and must be refused"""
     det = make(kind, p)
+    # a second, unrelated detector of the same class lives next to the one under observation and sees its own stream (another parameter set,
+    # outcomes from a fixed pseudo-random sequence): what ONE detector reports is a function of what IT was given
+    other_p = dict(p)
+    for key in other_p:
+        if key in ("n_threshold", "window_size"):
+            other_p[key] = int(other_p[key]) + 2
+    other = make(kind, other_p)
+    lcg = 12345 + 7 * len(seq)
     ev = []
     for t, c in enumerate(seq):
+        lcg = (1103515245 * lcg + 12345) % (2 ** 31)
+        other.update(1, 1 if (lcg >> 16) % 3 else 0)
+        if (lcg >> 8) % 97 == 0:
+            other.reset()
         if t in resets:
             det.reset()
             e = project(kind, det, 0)
